@@ -246,19 +246,22 @@ impl ServerInner {
             } => {
                 self.stopping = true;
 
-                // Signal accept thread to stop.
-                // Signal is non-blocking; we wait for thread to stop later.
-                self.waker_queue.wake(WakerInterest::Stop);
-
-                #[cfg(actix_net_verif)]
-                crate::verif::point(crate::verif::Point::StopSignalled);
-
                 // send stop signal to workers
                 let workers_stop = self
                     .worker_handles
                     .iter()
                     .map(|worker| worker.stop(graceful))
                     .collect::<Vec<_>>();
+
+                #[cfg(actix_net_verif)]
+                crate::verif::point(crate::verif::Point::StopSignalled);
+
+                // Signal accept thread to stop, after the workers have their stop message: the
+                // accept thread closes the connection channels when it exits, and a worker that
+                // saw its channel close before its stop message would exit at once and abandon
+                // the connections it has in progress.
+                // Signal is non-blocking; we wait for thread to stop later.
+                self.waker_queue.wake(WakerInterest::Stop);
 
                 if graceful {
                     // wait for all workers to shut down
